@@ -286,7 +286,7 @@ def gen_runs(tier):
 
 def mc_runs(tier):
     q = tier == "quick"
-    d = 5 if q else 7
+    d = 5 if q else 6          # three objects: depth 7 is beyond 10^7 states
     base = dict(mode="mc", copy=True, maxobj=3, maxitf=1, rx="RxOne", rules="RulePar", sp="Sp12", par="ParK1", modes="ModesSto",
                 maxrx=1, maxrules=1, presp="PreSp123", preset="PreSetAll")
     return [("mc_copy", consts(hlen=d, **base), None),
